@@ -57,7 +57,8 @@ creadtriple(int *m, int *n, int_t *nonz,
     asub = *rowind;
     xa   = *colptr;
 
-    val = (singlecomplex *) SUPERLU_MALLOC(*nonz * sizeof(singlecomplex));
+    if ( !(val = (singlecomplex *) SUPERLU_MALLOC(*nonz * sizeof(singlecomplex))) )
+        ABORT("Malloc fails for val[]");
     row = int32Malloc(*nonz);
     col = int32Malloc(*nonz);
 
